@@ -28,12 +28,35 @@ EITHER zones (nothing asserted):
     memory, but not required to be read-only;
   * `ts.tables` hands out a fresh copy in this version (the docstring allows a future read-only view): mutating it, like
     mutating dump_tables(), must not reach the tree sequence — that IS asserted.
+
+Audit widening (see lib/props/AUDIT-C13.md; the new operations live in lib/props/c13_ext.py):
+  table   40 % of the programs run on a table that belongs to a TableCollection (its seven neighbours are compared after
+          every operation); metadata is raw bytes, permissive JSON or a struct schema; further operations: row objects
+          read from the same table / from a tree sequence, replace_with, reset, pickle / copy / deepcopy, collection
+          copy / pickle / fromdict / clear, low-level extend / get_row / update_row, schema assignment, pack_* /
+          unpack_* / nbytes / metadata_vector, equals(ignore_*) / assert_equals; argument forms (positional, numpy
+          scalars, lists, tuples, strided / read-only / byte-swapped / narrower arrays, ranges); programs flagged
+          "large" bring the row count / one ragged column to exactly a capacity boundary and step over it.
+  ts      arbitrary, struct-metadata and msprime-simulated tree sequences; derived state (trees, samples, individual
+          nodes, genotypes) is fingerprinted next to the tables; handed-out mutable objects are modified; read-only
+          arrays are asked to become writeable; pickle / copy / str / == / setattr / the source TableCollection /
+          multi-hop reads / LdCalculator are part of the programs.
+Further EITHER zones:
+  * a failing low-level `extend` may already have appended the rows listed before the offending index;
+  * numpy 0/1 integer arrays for keep_rows, int64 arrays for int32 columns, bytearray metadata: refused by this
+    version, undocumented - not generated;
+  * `setflags(write=True)` succeeding on an array that owns its memory or on a Python-side cache: only the TABLES of
+    the tree sequence must stay equal then.
 """
+import collections.abc
+import copy
 import inspect
+import itertools
 import io
 import json
 import math
 import os
+import pickle
 import shutil
 import struct
 import tempfile
@@ -44,7 +67,9 @@ import tskit
 
 from lib import gen
 from lib.harness import case_rng
-from lib.tsk import SPEC, columns_from_rows, pack_ragged, rows_from_columns, tables_bytes, to_tables
+from lib.props import c13_ext as X
+from lib.props.c13_ext import SCHEMAS, ExtOps, canonical_json, decode_md, struct_encode, vary_array
+from lib.tsk import SPEC, columns_from_rows, from_tables, pack_ragged, rows_from_columns, tables_bytes, to_tables
 
 ID = "C13"
 
@@ -63,7 +88,11 @@ def cases(tier, seed):
         if k % 4 == 3:
             yield {"gen": "ts", "k": k}
         else:
-            yield {"gen": "table", "table": NAMES[(k - k // 4) % 8], "k": k}
+            c = {"gen": "table", "table": NAMES[(k - k // 4) % 8], "k": k}
+            if k % 44 in (1, 14, 30):
+                # a fixed share of the programs works AT the capacity boundaries (1024/2048 rows, 64/128 KiB columns)
+                c["large"] = 1
+            yield c
 
 
 # =============================================================================================
@@ -90,8 +119,9 @@ def cz(x):
 class Gen:
     """Random row values for one program."""
 
-    def __init__(self, rng, name, jsonmode):
+    def __init__(self, rng, name, jsonmode, mode=None):
         self.rng, self.name, self.jsonmode = rng, name, jsonmode
+        self.mode = mode or ("json" if jsonmode else "raw")   # raw bytes / permissive JSON / struct codec
         # whole ragged columns that stay empty for the entire program while the others are filled (a table
         # whose ancestral_state column is all-empty but whose metadata is not, and so on)
         ragged = {"sites": ["s", "md"], "mutations": ["s", "md"], "individuals": ["loc", "par", "md"],
@@ -99,7 +129,7 @@ class Gen:
         self.empty = set()
         if rng.random() < 0.3:
             self.empty = set(rng.sample(ragged, rng.randint(1, max(1, len(ragged) - 1))))
-            if jsonmode:
+            if self.mode != "raw":
                 self.empty.discard("md")
 
     def f(self):
@@ -135,6 +165,11 @@ class Gen:
 
     def md(self, api):
         """(value for add_row/row objects, model bytes).  api=False: bytes go in raw through columns."""
+        if self.mode == "struct":
+            r = self.rng
+            obj = {"n": r.choice([0, -1, 2 ** 31 - 1, -(2 ** 31), r.randint(-1000, 1000)]),
+                   "v": [r.randint(-128, 127) for _ in range(r.choice([0, 0, 1, 3, 9, 200]))]}
+            return (obj if api else None), struct_encode(obj)
         if not self.jsonmode:
             b = b"" if "md" in self.empty else self.rawbytes()
             return b, b
@@ -212,26 +247,51 @@ class Refused(Exception):
     pass
 
 
-class TableHistory:
+class TableHistory(ExtOps):
+    Refused = Refused
+
     def __init__(self, case, ctx, rng):
         self.ctx, self.rng = ctx, rng
         self.name = case["table"]
         self.cls = CLASSES[self.name]
         self.has_md = self.name != "provenances"
-        self.jsonmode = self.has_md and rng.random() < 0.2
-        self.g = Gen(rng, self.name, self.jsonmode)
+        x = rng.random()
+        self.mode = ("json" if x < 0.2 else "struct" if x < 0.35 else "raw") if self.has_md else "raw"
+        self.jsonmode = self.mode == "json"
+        self.large = bool(case.get("large"))
+        self.g = Gen(rng, self.name, self.jsonmode, self.mode)
         inc = rng.choice([0, 0, 1, 1, 2, 7])
-        self.t = self.cls(max_rows_increment=inc) if inc else self.cls()
+        self.tc = None
+        self._ts = None
+        if rng.random() < 0.4:
+            # the table lives inside a TableCollection (the low-level wrapper then points into the collection's
+            # memory); its seven neighbours hold a few rows and must never be touched
+            inc = 0
+            self.tc = tskit.TableCollection(rng.choice([1.0, 10.0]))
+            self.t = getattr(self.tc, self.name)
+            for o in NAMES:
+                if o != self.name:
+                    g2 = Gen(rng, o, False)
+                    rows = [g2.row(j, api=False)[0] for j in range(rng.choice([0, 1, 3]))]
+                    getattr(self.tc, o).set_columns(**columns_from_rows(o, rows))
+            self.others = self.others_snapshot()
+            ctx.feature("owner:TableCollection")
+        else:
+            self.t = self.cls(max_rows_increment=inc) if inc else self.cls()
+            ctx.feature("owner:free-standing")
         self.M = []
-        self.schema = ""
-        if self.jsonmode:
-            self.t.metadata_schema = tskit.MetadataSchema(json.loads(JSON_SCHEMA))
-            self.schema = JSON_SCHEMA
+        self.schema = SCHEMAS[self.mode]
+        if self.mode != "raw":
+            self.t.metadata_schema = tskit.MetadataSchema(json.loads(self.schema))
         self.op = "init"
         self.ops_done = []
         ctx.feature("table:" + self.name)
         if self.jsonmode:
             ctx.feature("json-schema")
+        if self.mode == "struct":
+            ctx.feature("struct-schema")
+        if self.large:
+            ctx.feature("large-program")
         if inc:
             ctx.feature("max_rows_increment")
 
@@ -288,6 +348,11 @@ class TableHistory:
         if self.has_md and d["metadata_schema"] != schema:
             self.bad("schema-differs" + label, f"schema {d['metadata_schema']!r}, model {schema!r}")
             ok = False
+        if self.tc is not None and t is self.t:
+            if getattr(self.tc, self.name) is not t:
+                self.bad("collection-table-identity" + label, "the collection hands out another table object")
+                ok = False
+            ok = self.check_others(label) and ok
         return ok
 
     def expect_refused(self, why, fn, *a, cleared_ok=False, **kw):
@@ -329,10 +394,7 @@ class TableHistory:
             elif kind == "S":
                 good = v == mv
             elif kind == "B":
-                if self.schema:
-                    good = v == (json.loads(mv.decode()) if mv else {})
-                else:
-                    good = v == mv
+                good = v == decode_md(self.schema, mv)
             elif kind == "Rf8":
                 good = isinstance(v, np.ndarray) and v.dtype == np.float64 and v.tobytes() == np.array(mv, dtype=np.float64).tobytes()
             else:
@@ -349,6 +411,12 @@ class TableHistory:
             if self.schema:
                 other.metadata_schema = tskit.MetadataSchema(json.loads(self.schema))
             self.add_row_call(other, kw)
+            if self.rng.random() < 0.3:
+                # the row object outlives the table it was read from
+                ro = other[0]
+                other.clear()
+                del other
+                return ro
             return other[0]
         if self.name == "mutations" and kw["time"] is None:
             kw["time"] = tskit.UNKNOWN_TIME
@@ -371,18 +439,74 @@ class TableHistory:
                 kw.pop(col)
                 row[[c for c, _ in SPEC[self.name]].index(col)] = dv
         if self.has_md and r.random() < 0.2:
-            kw.pop("metadata")
+            if r.random() < 0.5:
+                kw.pop("metadata")
+            else:
+                kw["metadata"] = None     # documented as "the default metadata value for the table's schema"
             row[-1] = b"{}" if self.jsonmode else b""
+            if self.mode == "struct":
+                # the struct schema makes both properties required, so the default value {} cannot be encoded
+                self.expect_refused("add_row without metadata under a struct schema with required properties",
+                                    self.add_row_call, t, kw)
+                return
         row = tuple(row)
-        if self.name in ("edges", "sites", "migrations") and r.random() < 0.3:
-            order = [c for c, _ in SPEC[self.name] if c in kw]
-            args = [kw.pop(c) for c in order if c != "metadata"]
+        if r.random() < 0.4:
+            self.vary_scalars(kw)
+        if r.random() < 0.3:
+            # positional form: a prefix of the documented parameter order, the rest by keyword
+            order = X.POSITIONAL[self.name]
+            p = 0
+            while p < len(order) and order[p] in kw:
+                p += 1
+            p = r.randint(1, p) if p else 0
+            args = [kw.pop(c) for c in order[:p]]
+            self.ctx.feature("add_row:positional")
             rid = self.must(t.add_row, *args, **kw)
         else:
             rid = self.must(self.add_row_call, t, kw)
         if rid != len(M):
             self.bad("returned-id", f"add_row returned {rid} for a table that had {len(M)} rows")
         M.append(row)
+
+    def vary_scalars(self, kw):
+        """The same values as other accepted argument types (numpy scalars, tuples, arrays, ints for whole floats)."""
+        r = self.rng
+        self.ctx.feature("add_row:numpy-forms")
+
+        def whole(v):
+            return math.isfinite(v) and v == int(v) and abs(v) < 2 ** 53 and math.copysign(1.0, v) > 0
+
+        def f32(v):
+            with np.errstate(over="ignore"):
+                return math.isfinite(v) and float(np.float32(v)) == v
+
+        for col, kind in SPEC[self.name]:
+            if col not in kw or kw[col] is None:
+                continue
+            v = kw[col]
+            if kind == "u4":
+                kw[col] = r.choice([v, np.uint32(v), np.int64(v), np.uint64(v)])
+            elif kind == "i4":
+                kw[col] = r.choice([v, np.int32(v), np.int64(v)])
+            elif kind in ("f8", "T"):
+                forms = [v, np.float64(v)]
+                if whole(v):
+                    forms.append(int(v))
+                if f32(v):
+                    forms.append(np.float32(v))
+                kw[col] = r.choice(forms)
+            elif kind == "Rf8":
+                forms = [list(v), tuple(v), np.array(v, dtype=np.float64)]
+                if v and all(whole(y) for y in v):
+                    forms.append([int(y) for y in v])
+                if v and all(f32(y) for y in v):
+                    forms.append(np.array(v, dtype=np.float32))
+                kw[col] = r.choice(forms)
+            elif kind == "Ri4":
+                forms = [list(v), tuple(v), np.array(v, dtype=np.int32)]
+                if v and all(-2 ** 15 <= y < 2 ** 15 for y in v):
+                    forms.append(np.array(v, dtype=np.int16))
+                kw[col] = r.choice(forms)
 
     def op_add_row_bad(self):
         row, mdv = self.g.row(len(self.M), api=True)
@@ -411,7 +535,12 @@ class TableHistory:
         r = self.rng
         if n and r.random() < 0.8:
             i = r.randrange(-n, n)
-            idx = r.choice([i, np.int64(i), np.int32(i)])
+            forms = [i, np.int64(i), np.int32(i), np.intp(i)]
+            if -2 ** 15 <= i < 2 ** 15:
+                forms.append(np.int16(i))
+            if 0 <= i < 256:
+                forms += [np.uint8(i), np.uint64(i)]
+            idx = r.choice(forms)
             row = self.must(self.t.__getitem__, idx)
             self.ctx.count("row-object")
             msg = self.row_matches(row, self.M[i])
@@ -452,7 +581,7 @@ class TableHistory:
             return
         p = r.choice([0.0, 0.3, 0.7, 1.0])
         mask = [r.random() < p for _ in range(n)]
-        arg = np.array(mask, dtype=bool) if (n == 0 or r.random() < 0.6) else mask
+        arg = np.array(mask, dtype=bool) if (n == 0 or r.random() < 0.6) else (mask if r.random() < 0.6 else tuple(mask))
         sub = self.must(self.t.__getitem__, arg)
         self.check_subtable(sub, [self.M[i] for i in range(n) if mask[i]], "t[mask]")
 
@@ -463,12 +592,26 @@ class TableHistory:
             ids = [r.randrange(n) for _ in range(r.randint(0, 2))] + [n + r.choice([0, 1, 50])] if n else [0]
             self.expect_refused(f"id array {ids} for {n} rows", self.t.__getitem__, np.array(ids, dtype=np.int64))
             return
+        if r.random() < 0.12:
+            # ids that no int32 row number can hold, non-integer and two-dimensional index arrays
+            bad = r.choice([np.array([0, 2 ** 31], dtype=np.int64), [0, 2 ** 40], np.array([0.0]), np.array([[0]]),
+                            np.array([2 ** 63], dtype=np.uint64), np.array([0.5, 1.5])])
+            self.expect_refused(f"index array {bad!r}", self.t.__getitem__, bad)
+            return
         ids = [r.randrange(n) for _ in range(r.choice([0, 1, 2, 5, n, 2 * n]))]
         x = r.random()
-        if x < 0.3 or not ids:
-            arg = np.array(ids, dtype=np.int32)
+        if x < 0.1:
+            # a range object, including the last row and an empty range
+            a, b = sorted([r.randint(0, n), r.randint(0, n)])
+            rg = r.choice([range(a, b), range(b - 1, a - 1, -1) if b > a else range(0), range(a, n, 2), range(n)])
+            ids = list(rg)
+            arg = rg
+        elif x < 0.3 or not ids:
+            arg = np.array(ids, dtype=np.int32) if (ids or r.random() < 0.5) else r.choice([[], (), np.array([])])
         elif x < 0.6:
-            arg = np.array(ids, dtype=r.choice([np.int64, np.uint32, np.int16 if n < 30000 else np.int64]))
+            small = [np.int8, np.uint8] if n <= 127 else []
+            arg = np.array(ids, dtype=r.choice([np.int64, np.uint32, np.uint64, np.int16 if n < 30000 else np.int64]
+                                               + small))
         else:
             arg = ids if x < 0.8 else tuple(ids)
         sub = self.must(self.t.__getitem__, arg)
@@ -503,7 +646,21 @@ class TableHistory:
         other = self.cls()
         i = r.randrange(-n, n)
         self.ctx.count("setitem-foreign-schema")
-        if self.schema:
+        if self.mode == "struct":
+            if r.random() < 0.6:
+                # source: a JSON-schema table holding the same object as text; the struct table must store ITS encoding
+                other.metadata_schema = tskit.MetadataSchema(json.loads(JSON_SCHEMA))
+                self.add_row_call(other, kw)
+                self.ctx.feature("setitem-foreign:json-row-into-struct-table")
+                self.must(self.t.__setitem__, i, other[0])
+                self.M[i] = row
+            else:
+                kw["metadata"] = row[-1]
+                self.add_row_call(other, kw)
+                self.ctx.feature("setitem-foreign:raw-row-into-struct-table")
+                self.expect_refused("row with raw-bytes metadata (schema-less table) assigned to a struct-schema table",
+                                    self.t.__setitem__, i, other[0])
+        elif self.schema:
             if r.random() < 0.6:
                 # source: the same permissive JSON schema, but the stored text is not in canonical form
                 other.metadata_schema = tskit.MetadataSchema(json.loads(JSON_SCHEMA))
@@ -527,8 +684,12 @@ class TableHistory:
                                     self.t.__setitem__, i, other[0])
         else:
             # destination has no schema (metadata must be bytes); source decodes to a dict
-            other.metadata_schema = tskit.MetadataSchema(json.loads(JSON_SCHEMA))
-            kw["metadata"] = self.g.jsonobj()
+            if r.random() < 0.7:
+                other.metadata_schema = tskit.MetadataSchema(json.loads(JSON_SCHEMA))
+                kw["metadata"] = self.g.jsonobj()
+            else:
+                other.metadata_schema = tskit.MetadataSchema(json.loads(SCHEMAS["struct"]))
+                kw["metadata"] = {"n": 1, "v": [2]}
             self.add_row_call(other, kw)
             self.ctx.feature("setitem-foreign:json-row-into-raw-table")
             self.expect_refused("row with dict metadata (JSON-schema table) assigned to a schema-less table",
@@ -542,7 +703,7 @@ class TableHistory:
             self.expect_refused(f"truncate({k}) with {n} rows", self.t.truncate, k)
             return
         k = r.choice([n, 0, max(0, n - 1), r.randint(0, n)])
-        self.must(self.t.truncate, k)
+        self.must(self.t.truncate, r.choice([k, k, np.int64(k), np.int32(k), np.uint64(k)]))
         del self.M[k:]
 
     def refs(self, row):
@@ -585,7 +746,8 @@ class TableHistory:
                         why = f"kept row {j} refers to {p_}, out of bounds for {n} rows"
                     elif idmap[p_] == -1:
                         why = f"kept row {j} refers to deleted row {p_}"
-        arg = np.array(keep, dtype=bool) if (n == 0 or r.random() < 0.5) else keep
+        arg = np.array(keep, dtype=bool) if (n == 0 or r.random() < 0.5) else \
+            r.choice([keep, keep, tuple(keep), [int(b) for b in keep]])
         if why:
             self.ctx.feature("keep_rows:refused")
             self.expect_refused(why, self.t.keep_rows, arg)
@@ -606,7 +768,11 @@ class TableHistory:
         self.M[:] = new
 
     def op_clear(self):
-        self.must(self.t.clear)
+        if self.rng.random() < 0.3:
+            self.ctx.feature("clear:reset-alias")
+            self.must(self.t.reset)      # deprecated alias of clear
+        else:
+            self.must(self.t.clear)
         self.M.clear()
 
     def new_rows(self):
@@ -649,6 +815,8 @@ class TableHistory:
         fixed = [c for c, k in SPEC[self.name] if k in ("u4", "i4", "f8", "T") and c in d]
         ragged = [c for c, k in SPEC[self.name] if k in ("B", "S", "Rf8", "Ri4") and c in d]
         kinds = []
+        if self.name not in ("populations", "provenances"):
+            kinds.append("missing-required")
         if len(fixed) >= 2 or (fixed and ragged):
             kinds.append("fixed-length")
         if ragged:
@@ -663,6 +831,10 @@ class TableHistory:
             return None
         kind = r.choice(kinds)
         d = dict(d)
+        if kind == "missing-required":
+            c = SPEC[self.name][0][0]
+            d.pop(c)
+            return f"required column {c} missing", d
         if kind == "fixed-length":
             c = r.choice(fixed)
             d[c] = np.concatenate([d[c], d[c][:1]]) if len(d[c]) and r.random() < 0.5 else np.append(d[c], d[c].dtype.type(0))
@@ -707,23 +879,35 @@ class TableHistory:
 
     def op_set_columns(self, appending=False):
         r = self.rng
+        switch = not appending and self.has_md and r.random() < 0.15
+        if switch:
+            # set_columns(metadata_schema=<text of ANOTHER schema>) replaces rows and schema in one call
+            self.set_mode(r.choice([m_ for m_ in ("raw", "json", "struct") if m_ != self.mode]))
+            self.ctx.feature("set_columns:other-schema")
         rows = self.new_rows()
-        if self.jsonmode:
-            pass
         d = self.columns(rows)
         fn = self.t.append_columns if appending else self.t.set_columns
-        if r.random() < 0.2:
+        if r.random() < 0.2 and not switch:
             c = self.corrupt(d, rows, appending)
             if c is not None:
                 self.ctx.feature("columns:refused")
                 self.expect_refused(c[0], fn, cleared_ok=not appending, **c[1])
                 return
-        if not appending and self.has_md and r.random() < 0.3:
+        if switch:
+            d["metadata_schema"] = self.schema
+        elif not appending and self.has_md and r.random() < 0.3:
             d["metadata_schema"] = r.choice([None, self.schema])
         if appending and not rows and not d:
             return
         if self.name == "populations" and not appending and "metadata" not in d:
             d = columns_from_rows(self.name, rows)
+            if switch:
+                d["metadata_schema"] = self.schema
+        if r.random() < 0.35:
+            self.ctx.feature("columns:argument-forms")
+            for k in list(d):
+                if k != "metadata_schema" and d[k] is not None and r.random() < 0.5:
+                    d[k] = vary_array(r, d[k])
         self.must(fn, **d)
         if appending:
             self.M.extend(rows)
@@ -769,7 +953,7 @@ class TableHistory:
         for j, (c, k) in enumerate(spec):
             if k in ("u4", "i4", "f8", "T"):
                 choices.append(("fixed", j, c, k))
-            elif k in ("Rf8", "Ri4") or (k == "B" and not self.jsonmode):
+            elif k in ("Rf8", "Ri4", "S") or (k == "B" and self.mode == "raw"):
                 choices.append(("repartition", j, c, k))
                 choices.append(("data", j, c, k))
         if not choices:
@@ -789,11 +973,13 @@ class TableHistory:
                 self.expect_refused(f"t.{c} = array of {m} for {n} rows", setattr, t, c, arr, cleared_ok=True)
                 return
             self.ctx.feature("assign:" + k)
-            self.must(setattr, t, c, arr)
+            self.must(setattr, t, c, vary_array(r, arr) if r.random() < 0.4 else arr)
             self.M[:] = [row[:j] + (vals[i],) + row[j + 1:] for i, row in enumerate(self.M)]
             return
         flat, off = pack_ragged(k, [row[j] for row in self.M])
         total = len(flat)
+        if k == "S" and how == "repartition" and np.any(flat < 0):
+            return    # cutting inside a multi-byte character would make the text column undecodable
         if how == "repartition":
             cuts = sorted(r.randint(0, total) for _ in range(n - 1)) if n else []
             newoff = np.array(([0] + cuts + [total]) if n else [0], dtype=r.choice([np.uint32, np.uint64]))
@@ -806,8 +992,8 @@ class TableHistory:
                     self.expect_refused(f"t.{c}_offset ending at {bad[-1]} for {total} data items", setattr, t,
                                         c + "_offset", bad, cleared_ok=True)
                     return
-            self.ctx.feature("assign:offset")
-            self.must(setattr, t, c + "_offset", newoff)
+            self.ctx.feature("assign:offset" + (":text" if k == "S" else ""))
+            self.must(setattr, t, c + "_offset", vary_array(r, newoff) if r.random() < 0.3 else newoff)
             o = [int(x) for x in newoff]
         else:
             if total == 0:
@@ -818,16 +1004,21 @@ class TableHistory:
                 return
             if k == "B":
                 flat = np.array([r.choice([0, 65, -1, 127, -128]) for _ in range(total)], dtype=np.int8)
+            elif k == "S":
+                flat = np.array([r.choice([65, 67, 71, 84, 48, 0]) for _ in range(total)], dtype=np.int8)
             elif k == "Rf8":
                 flat = np.array([self.g.f() for _ in range(total)], dtype=np.float64)
             else:
                 flat = np.array([self.g.ident(n, True) for _ in range(total)], dtype=np.int32)
-            self.ctx.feature("assign:ragged-data")
-            self.must(setattr, t, c, flat)
+            self.ctx.feature("assign:ragged-data" + (":text" if k == "S" else ""))
+            self.must(setattr, t, c, vary_array(r, flat) if r.random() < 0.3 else flat)
             o = [int(x) for x in off]
         if k == "B":
             b = flat.tobytes()
             vals = [b[o[i]:o[i + 1]] for i in range(n)]
+        elif k == "S":
+            b = flat.tobytes()
+            vals = [b[o[i]:o[i + 1]].decode("ascii") for i in range(n)]
         elif k == "Rf8":
             vals = [tuple(float(x) for x in flat[o[i]:o[i + 1]]) for i in range(n)]
         else:
@@ -837,7 +1028,8 @@ class TableHistory:
     def op_drop_metadata(self):
         if not self.has_md:
             return
-        keep = self.rng.random() < 0.5
+        # under the struct schema an empty entry cannot be decoded, so the schema goes with the metadata there
+        keep = self.rng.random() < 0.5 and self.mode != "struct"
         if keep:
             self.must(self.t.drop_metadata, keep_schema=True)
         elif self.rng.random() < 0.5:
@@ -846,10 +1038,8 @@ class TableHistory:
             self.must(self.t.drop_metadata, keep_schema=False)
         self.M[:] = [row[:-1] + (b"",) for row in self.M]
         if not keep:
-            self.schema = ""
             # rows added from now on carry raw bytes
-            self.jsonmode = False
-            self.g.jsonmode = False
+            self.set_mode("raw")
 
     def op_copy(self):
         c = self.must(self.t.copy)
@@ -860,6 +1050,7 @@ class TableHistory:
         if self.rng.random() < 0.5:
             # carry on with the copy; the original is checked once more after the copy has been changed
             old, self.t = self.t, c
+            self.tc = None
             snapshot = list(self.M)
             schema = self.schema
             self.op_add_row()
@@ -894,13 +1085,44 @@ class TableHistory:
                 rows[i] = (rows[i][0] + "x", rows[i][1])
             elif self.jsonmode:
                 rows[i] = rows[i][:-1] + (b'{"q":0}' if rows[i][-1] != b'{"q":0}' else b"{}",)
+            elif self.mode == "struct":
+                alt = struct_encode({"n": 7, "v": []})
+                rows[i] = rows[i][:-1] + (alt if rows[i][-1] != alt else struct_encode({"n": 8, "v": [1]}),)
             else:
                 rows[i] = rows[i][:-1] + (rows[i][-1] + b"\x00",)
             other = self.fresh(rows)
-            if self.t == other:
+            if self.t == other or not (self.t != other):
                 self.bad("eq-true", f"table == a table whose row {i} differs")
+            # the twin differs in metadata (provenances: in a timestamp) only
+            opt = {"ignore_timestamps": True} if self.name == "provenances" else {"ignore_metadata": True}
+            if not self.must(self.t.equals, other, **opt) or not self.must(other.equals, self.t, **opt):
+                self.bad("eq-false", f"equals(..., {opt}) is False for a table that differs in that column of row {i} only")
+            if self.must(self.t.equals, other, **{k_: False for k_ in opt}):
+                self.bad("eq-true", f"equals(..., {list(opt)[0]}=False) is True for a table whose row {i} differs")
+            try:
+                self.t.assert_equals(other)
+            except AssertionError:
+                pass
+            except Exception as e:  # noqa: BLE001
+                self.bad("assert_equals-raised-" + type(e).__name__, f"assert_equals on differing tables raised {e}")
+            else:
+                self.bad("eq-true", f"assert_equals did not raise for a table whose row {i} differs")
+            if self.has_md and self.schema:
+                # same rows, another schema text: unequal unless metadata is ignored
+                bare = self.fresh(schema="")
+                if self.t == bare or not self.must(self.t.equals, bare, ignore_metadata=True):
+                    self.bad("eq-schema", "comparison with a table that differs in its metadata schema only: == is "
+                                          f"{self.t == bare}, equals(ignore_metadata=True) is "
+                                          f"{self.t.equals(bare, ignore_metadata=True)}")
+        try:
+            self.t.assert_equals(twin)
+        except Exception as e:  # noqa: BLE001
+            self.bad("eq-false", f"assert_equals raised {type(e).__name__} for a table set from the same rows: {e}")
+        if self.t != twin or self.t == 5 or self.t == self.M or self.t == CLASSES[NAMES[(NAMES.index(self.name) + 1) % 8]]():
+            self.bad("eq-type", "!= on an equal table, or == with an object of another type, is True")
         shorter = self.fresh(self.M[:-1]) if self.M else None
-        if shorter is not None and self.t == shorter:
+        if shorter is not None and (self.t == shorter or shorter == self.t
+                                    or self.t.equals(shorter, **({"ignore_metadata": True} if self.has_md else {}))):
             self.bad("eq-true", "table == the same table without its last row")
 
     OPS = (
@@ -908,6 +1130,9 @@ class TableHistory:
         ("getitem_mask", 4), ("getitem_ids", 4), ("setitem", 8), ("setitem_foreign", 3), ("truncate", 4), ("keep_rows", 6), ("clear", 1),
         ("set_columns", 3), ("append_columns", 5), ("packset", 4), ("col_assign", 5), ("drop_metadata", 1),
         ("copy", 2), ("iter", 2), ("eq", 2),
+        # audit widening (lib/props/c13_ext.py)
+        ("same_row", 5), ("ts_row", 3), ("replace_with", 2), ("pickle", 2), ("extend_ll", 3), ("ll_row", 2),
+        ("set_schema", 1), ("unpack", 2), ("tc_copy", 2), ("tc_clear", 1), ("fill_boundary", 0),
     )
 
     def run(self):
@@ -915,6 +1140,11 @@ class TableHistory:
         nops = r.choice([10, 20, 40, 40, 80, 200])
         names = [n for n, _ in self.OPS]
         weights = [w for _, w in self.OPS]
+        if self.large:
+            # programs that live at the capacity boundaries: fewer, heavier operations
+            nops = r.choice([8, 12, 16])
+            weights = [12 if n == "fill_boundary" else 0 if n in ("clear", "tc_clear", "set_columns", "replace_with")
+                       else w for n, w in self.OPS]
         self.verify()
         # start from a few rows so that every operation has something to work on
         for _ in range(r.choice([0, 1, 3, 5])):
@@ -968,14 +1198,15 @@ SKIP_NAMES = {"ll_tree_sequence", "get_ll_tree_sequence", "load", "load_tables",
               "tree_sequence"}
 
 
-def fingerprint(ts):
+def fingerprint(ts, tables_only=False, prop=False):
     import hashlib
     h = hashlib.sha256()
-    for tc in (ts.dump_tables(), ts.tables):
-        for p, dt, b in tables_bytes(tc):
-            h.update(p.encode())
-            h.update(dt.encode())
-            h.update(b if isinstance(b, bytes) else b.encode())
+    for p, dt, b in tables_bytes(ts.tables if prop else ts.dump_tables()):
+        h.update(p.encode())
+        h.update(dt.encode())
+        h.update(b if isinstance(b, bytes) else b.encode())
+    if tables_only:
+        return h.hexdigest()
     for name in TS_ARRAY_PROPS:
         h.update(name.encode())
         h.update(np.asarray(getattr(ts, name)).tobytes())
@@ -992,23 +1223,78 @@ class Immut:
             m.individuals = [(f, (0.5 * j, 1.0 + j), p, md) for j, (f, _, p, md) in enumerate(m.individuals)]
         m.metadata = b"top"
         m.refseq = {"data": "ACGT", "url": "u"} if rng.random() < 0.5 else None
+        if rng.random() < 0.5:
+            # fixed-size struct metadata, so that the ts.<table>_metadata structured-array properties are defined
+            sch = ('{"additionalProperties":false,"codec":"struct","properties":{"x":{"binaryFormat":"i","type":"integer"}},'
+                   '"required":["x"],"type":"object"}')
+            m.schemas["nodes"] = sch
+            m.nodes = [row[:4] + ({"x": j},) for j, row in enumerate(m.nodes)]
+            m.schemas["sites"] = sch
+            m.sites = [row[:2] + ({"x": -j},) for j, row in enumerate(m.sites)]
+            ctx.feature("ts:struct-metadata")
+            if rng.random() < 0.5:
+                for name in ("edges", "mutations", "populations", "migrations", "individuals"):
+                    m.schemas[name] = sch
+                    setattr(m, name, [row[:-1] + ({"x": 7 * j},) for j, row in enumerate(getattr(m, name))])
+                ctx.feature("ts:struct-metadata-all-tables")
         self.m = m
-        self.ts = to_tables(m).tree_sequence()
+        self.source = to_tables(m)
+        if rng.random() < 0.35:
+            # a "well-behaved" tree sequence (single roots, discrete genome, known mutation times, one-letter
+            # alleles, JSON population metadata), so that methods which refuse the arbitrary one really run
+            import msprime
+            a = msprime.sim_ancestry(samples=rng.choice([2, 3, 4]), ploidy=rng.choice([1, 2]),
+                                     sequence_length=rng.choice([4, 8, 10]),
+                                     recombination_rate=rng.choice([0.0, 0.1, 0.3]),
+                                     population_size=rng.choice([1, 5]), random_seed=rng.randrange(1, 2 ** 31))
+            a = msprime.sim_mutations(a, rate=rng.choice([0.05, 0.2]), random_seed=rng.randrange(1, 2 ** 31))
+            self.source = a.dump_tables()
+            self.m = m = from_tables(self.source)
+            ctx.feature("ts:msprime")
+        self.ts = self.source.tree_sequence()
         self.other = gen_other(rng)
         self.fp = fingerprint(self.ts)
+        self.deep = X.deep_state(self.ts)
+        self._fp_tables = fingerprint(self.ts, tables_only=True)
+        self.meddles = 0
         self.seen = 0
+        self.calls = 0
+        self.pending = []
+        self.deep_before_write = self.deep
         self.trace = []
         ctx.sig(m.signature(), nontrivial=len(m.edges) > 0)
 
-    def unchanged(self, what):
+    def unchanged(self, what, deep=False, tables_prop=False):
         self.ctx.count("fingerprint")
         fp = fingerprint(self.ts)
+        ok = True
+        if tables_prop and fingerprint(self.ts, tables_only=True, prop=True) != self._fp_tables:
+            # ts.tables is documented as (currently) a copy: what a caller did to an earlier result must not show
+            self.ctx.violation(f"ts-tables-property-changed/{what}", f"ts.tables differs from the tables of the tree "
+                                                                     f"sequence after {what}")
+            ok = False
         if fp != self.fp:
             self.ctx.violation(f"ts-changed/{what}", f"tree sequence fingerprint changed after {what}; calls so far "
                                                      f"{self.trace[-5:]}", {"model": self.m.to_json()})
             self.fp = fp
-            return False
-        return True
+            self._fp_tables = fingerprint(self.ts, tables_only=True)
+            ok = False
+        if deep and ok:
+            # state derived from the tables (trees, sample lists, individual node lists, genotypes); never walked
+            # while the tables themselves are known to have been overwritten
+            self.ctx.count("deep-fingerprint")
+            dp = X.deep_state(self.ts)
+            self.deep_before_write = self.deep
+            if dp != self.deep:
+                self.ctx.violation(f"ts-derived-state-changed/{what}",
+                                   f"trees / samples / individual nodes / genotypes of the tree sequence changed after "
+                                   f"{what}; calls so far {self.trace[-5:]}", {"model": self.m.to_json()})
+                self.deep = dp
+                ok = False
+        return ok
+
+    def fp_tables(self):
+        return self._fp_tables
 
     # ---- probing results
     def probe(self, x, what, depth=0):
@@ -1030,9 +1316,12 @@ class Immut:
         elif isinstance(x, dict):
             for k, v in list(x.items())[:20]:
                 self.probe(v, what, depth + 1)
+            self.meddle(x, what)
         elif isinstance(x, (tuple, list)):
             for v in x[:20]:
                 self.probe(v, what, depth + 1)
+            if isinstance(x, list):
+                self.meddle(x, what)
         elif hasattr(x, "__dataclass_fields__"):
             for f in x.__dataclass_fields__:
                 try:
@@ -1040,9 +1329,25 @@ class Immut:
                 except Exception:  # noqa: BLE001
                     continue
                 self.probe(v, f"{what}.{f}", depth + 1)
+            self.meddle(x, what)
         elif isinstance(x, tskit.BaseTable):
             for c in x.column_names:
                 self.probe(getattr(x, c), f"{what}.{c}", depth + 1)
+            self.meddle(x, what)
+        elif isinstance(x, (tskit.ReferenceSequence, tskit.MetadataSchema)):
+            self.meddle(x, what)
+        elif isinstance(x, collections.abc.Mapping):
+            # IdentitySegments and friends: the values carry the arrays
+            try:
+                keys = list(itertools.islice(iter(x), 8))
+            except Exception:  # noqa: BLE001
+                keys = []
+            for k in keys:
+                try:
+                    self.probe(x[k], f"{what}[]", depth + 1)
+                except Exception:  # noqa: BLE001
+                    pass
+            self.probe_properties(x, what, depth)
         elif hasattr(x, "__next__") or isinstance(x, types.GeneratorType) or (
                 hasattr(x, "__iter__") and type(x).__module__.startswith("tskit")):
             try:
@@ -1050,8 +1355,44 @@ class Immut:
                     if j >= 12:
                         break
                     self.probe(v, what + "[]", depth + 1)
+                    self.flush()     # nothing stays overwritten while the iterator advances
             except Exception:  # noqa: BLE001
                 pass
+            self.probe_properties(x, what, depth)
+        elif type(x).__module__.startswith("tskit"):
+            self.probe_properties(x, what, depth)
+
+    def probe_properties(self, x, what, depth):
+        """Objects of tskit classes without a special case (IdentitySegmentList, TopologyCounter, ...): their public
+        properties may hand out arrays too."""
+        if not type(x).__module__.startswith("tskit") or isinstance(x, types.GeneratorType):
+            return
+        for n in dir(type(x)):
+            if n.startswith("_") or not isinstance(inspect.getattr_static(type(x), n, None), property):
+                continue
+            try:
+                v = getattr(x, n)
+            except Exception:  # noqa: BLE001
+                continue
+            self.ctx.feature(f"property-of:{type(x).__name__}")
+            self.probe(v, f"{what}.{n}", depth + 1)
+
+    def meddle(self, x, what):
+        """Change a mutable object the tree sequence handed out (row object fields, lists, dicts, tables, the
+        reference sequence, a schema object): the tree sequence must not notice."""
+        if self.meddles >= 2:
+            return
+        self.flush()
+        label = X.mutate_handed_out(x, self.rng)
+        if label is None:
+            return
+        self.meddles += 1
+        self.ctx.count("handed-out-mutation")
+        self.ctx.feature("meddled:" + label)
+        if not self.unchanged(f"mutating-{label}-from:{_generic(what)}",
+                              deep=self.meddles == 1 and label in ("row-object", "list")):
+            self.ctx.violation(f"handed-out-object-aliases-ts/{label}/{_generic(what)}",
+                               f"changing the {label} obtained from {what} changed the tree sequence")
 
     def probe_array(self, a, what):
         self.seen += 1
@@ -1062,8 +1403,34 @@ class Immut:
             try:
                 a[...] = a
             except (ValueError, TypeError):
+                pass
+            else:
+                self.ctx.violation(f"array-readonly-but-written/{_generic(what)}", f"{what}: flags.writeable False yet assignment went through")
                 return
-            self.ctx.violation(f"array-readonly-but-written/{_generic(what)}", f"{what}: flags.writeable False yet assignment went through")
+            # numpy lets the caller switch the flag back on for arrays that own their memory (copies, Python-side
+            # caches): EITHER - but a view of the tree sequence's own memory must refuse, or the tables would change
+            try:
+                a.setflags(write=True)
+            except ValueError:
+                return
+            self.ctx.count("array-setflags-probe")
+            if a.dtype == object or a.dtype.kind in "USV":
+                a.setflags(write=False)
+                return
+            save = a.copy()
+            try:
+                a[...] = (~a if a.dtype.kind == "b" else a ^ 1 if a.dtype.kind in "iu"
+                          else np.where(np.isfinite(a), a + 1.0, 0.25))
+            except Exception:  # noqa: BLE001
+                a.setflags(write=False)
+                return
+            tables_now = fingerprint(self.ts, tables_only=True)
+            if tables_now != self.fp_tables():
+                self.ctx.violation(f"array-aliases-ts/{_generic(what)}",
+                                   f"{what} is a read-only view whose writeable flag can be switched on, and writing "
+                                   f"into it changed the tables of the tree sequence")
+            a[...] = save
+            a.setflags(write=False)
             return
         self.ctx.count("array-writeable-probe")
         if a.dtype == object or a.dtype.kind in "USV":
@@ -1078,11 +1445,47 @@ class Immut:
                 a[...] = np.where(np.isfinite(a), a + 1.0, 0.25)
         except Exception:  # noqa: BLE001
             return
-        if not self.unchanged(f"write-into:{_generic(what)}"):
+        # the write stays in place until flush(): one fingerprint for all arrays of a result
+        self.pending.append((a, save, what))
+        if len(self.pending) >= 16:
+            self.flush()
+
+    def flush(self):
+        """Check the tree sequence after the pending writes into handed-out arrays, then undo them."""
+        if not self.pending:
+            return True
+        pend, self.pending = self.pending, []
+        ok = self.unchanged("write-into:" + _generic(pend[0][2]) + ("+..." if len(pend) > 1 else ""), deep=True)
+        if ok:
+            for a, save, _ in pend:
+                a[...] = save
+            return True
+        # find the array(s) whose restoration changes the tree sequence back (tables first: the trees of a tree
+        # sequence whose tables were overwritten are not walked)
+        culprits = []
+        for a, save, what in pend:
+            before = fingerprint(self.ts)
+            a[...] = save
+            if fingerprint(self.ts) != before:
+                culprits.append(what)
+        if not culprits:
+            # the tables never changed, so it was derived state: redo the writes one at a time
+            for a, save, what in pend:
+                try:
+                    a[...] = (~a if a.dtype.kind == "b" else a ^ 1 if a.dtype.kind in "iu"
+                              else np.where(np.isfinite(a), a + 1.0, 0.25))
+                    changed = X.deep_state(self.ts) != self.deep_before_write
+                except Exception:  # noqa: BLE001
+                    changed = False
+                a[...] = save
+                if changed:
+                    culprits.append(what)
+        for what in culprits:
             self.ctx.violation(f"array-aliases-ts/{_generic(what)}",
                                f"{what} is writeable and writing into it changed the tree sequence")
-        a[...] = save
         self.fp = fingerprint(self.ts)
+        self.deep = X.deep_state(self.ts)
+        return False
 
     def probe_tables(self, tc, what):
         self.ctx.count("tables-mutation-probe")
@@ -1101,7 +1504,8 @@ class Immut:
             tc.drop_index()
         except Exception:  # noqa: BLE001
             pass
-        if not self.unchanged(f"mutating-result-of:{_generic(what)}"):
+        self.flush()
+        if not self.unchanged(f"mutating-result-of:{_generic(what)}", tables_prop=True):
             self.ctx.violation(f"tables-alias-ts/{_generic(what)}", f"mutating the tables from {what} changed the tree sequence")
 
     def probe_tree(self, tree, what, depth):
@@ -1151,8 +1555,10 @@ class Immut:
                "provenance": ts.num_provenances}
         if name in idx:
             return ((r.randrange(idx[name]),), {}) if idx[name] else None
-        two = ([half, rest],)
+        two = (([half, rest],), {})    # (args, kwargs)
         Wv = np.arange(ns, dtype=np.float64).reshape(ns, 1)
+        W2 = np.ones((ns, 2))
+        zero_pos = {"allow_position_zero": True}
 
         def groups(k):
             return (([samples[j::k] for j in range(k)],), {}) if ns >= k else None
@@ -1164,18 +1570,19 @@ class Immut:
             "delete_sites": ((list(range(min(1, ts.num_sites))),), {}),
             "subset": ((list(range(0, ts.num_nodes, 2)),), {}),
             "dump": ((os.path.join(self.tmp, "d.trees"),), {}),
-            "write_vcf": ((io.StringIO(),), {}), "write_fasta": ((io.StringIO(),), {}),
+            "write_vcf": ((io.StringIO(),), zero_pos), "as_vcf": ((), zero_pos), "write_fasta": ((io.StringIO(),), {}),
             "write_nexus": ((io.StringIO(),), {}),
             "get_population": ((u,), {}), "get_time": ((u,), {}),
             "Fst": two, "divergence": two, "f2": two, "Y2": two, "genetic_relatedness": two,
             "Y1": (([samples],), {}), "mean_descendants": two,
             "genealogical_nearest_neighbours": ((half, [half, rest]), {}),
             "trait_covariance": ((W,), {}), "trait_correlation": ((Wv,), {}), "trait_linear_model": ((Wv,), {}),
-            "genetic_relatedness_weighted": ((W,), {}), "genetic_relatedness_vector": ((W,), {}),
-            "general_stat": ((W, lambda x: x, 1), {"polarised": True}),
-            "sample_count_stat": (([samples], lambda x: x, 1), {"polarised": True}),
-            "parse_windows": (("trees",), {}), "parse_positions": (([0.0, L / 2],), {}),
-            "parse_sites": ((list(range(min(2, ts.num_sites))),), {}),
+            "trait_regression": ((Wv,), {}),
+            "genetic_relatedness_weighted": ((W2,), {}), "genetic_relatedness_vector": ((W,), {"mode": "branch"}),
+            "general_stat": ((W, lambda x: x, 1), {"polarised": True, "strict": False}),
+            "sample_count_stat": (([samples], lambda x: x, 1), {"polarised": True, "strict": False}),
+            "parse_windows": (("trees",), {}), "parse_positions": (([[0.0, L / 2], [L / 4]],), {}),
+            "parse_sites": (([list(range(min(2, ts.num_sites))), list(range(min(1, ts.num_sites)))],), {}),
             "pca": ((1,), {}), "pair_coalescence_quantiles": ((np.array([0.5]),), {}),
             "pair_coalescence_rates": ((np.array([0.0, np.inf]),), {}),
             "union": ((self.other, np.full(self.other.num_nodes, -1, dtype=np.int32)), {"check_shared_equality": False}),
@@ -1239,18 +1646,24 @@ class Immut:
             res = fetch()
         except Exception as e:  # noqa: BLE001  the call's own success is not this property's business
             self.ctx.count("call-raised")
+            self.ctx.feature("raised:" + label)
             res = None
             self.trace.append(f"{label}!{type(e).__name__}")
         else:
             self.trace.append(label)
         self.ctx.count("call")
         self.seen = 0
+        self.meddles = 0
+        self.calls += 1
         try:
             if cls != "Variant" and isinstance(res, np.ndarray):
                 self.alias_probe(res, fetch, label)
             self.probe(res, label, depth)
         finally:
-            self.unchanged(label)
+            if self.pending:
+                self.flush()
+            else:
+                self.unchanged(label, deep=depth == 0 and self.calls % 8 == 0, tables_prop=self.calls % 16 == 0)
 
     def alias_probe(self, a, fetch, label):
         """A writeable array must be a copy: after writing into it, asking the object again must not show the write.
@@ -1276,17 +1689,98 @@ class Immut:
                                    f"the written values {_short(again)} instead of {_short(save)}")
         a[...] = save
 
+    def extra(self, name):
+        """Entry points that dir() does not list: dunder methods behind pickle / copy / str / ==, attribute
+        assignment, the TableCollection the tree sequence was built from, hops through handed-out tables."""
+        ts, r = self.ts, self.rng
+        label = "extra:" + name
+        self.ctx.feature(label)
+        self.ctx.count("call")
+        self.meddles = -4      # a few more modification attempts than for an ordinary call
+        self.seen = 0
+        self.trace.append(label)
+        res = None
+        try:
+            if name == "pickle":
+                res = pickle.loads(pickle.dumps(ts, protocol=r.choice([2, 4, 5])))
+                res = res.dump_tables()
+            elif name == "copy":
+                res = [copy.copy(ts), copy.deepcopy(ts)]
+                res = res[1].dump_tables() if res[1] is not ts else None
+            elif name == "text":
+                res = [str(ts), repr(ts), ts._repr_html_(), ts == self.other, ts != self.other, ts == ts,
+                       str(ts.first()), ts.first()._repr_html_(), hash(ts) if ts.__hash__ else None]
+                res = None
+            elif name == "setattr":
+                # properties without a setter must refuse; whatever happens the tree sequence stays the same
+                props = [n for n in dir(tskit.TreeSequence) if isinstance(inspect.getattr_static(tskit.TreeSequence, n),
+                                                                           property) and not n.startswith("_")]
+                for n in r.sample(props, 6) + ["tables", "sequence_length", "nodes_time", "metadata"]:
+                    old = ts.__dict__.get(n, self)
+                    try:
+                        setattr(ts, n, r.choice([0, None, np.zeros(3), "x"]))
+                    except Exception:  # noqa: BLE001
+                        continue
+                    self.ctx.feature("setattr-accepted:" + n)
+                    # an instance attribute shadowing nothing is the caller's business; undo it
+                    if old is self:
+                        ts.__dict__.pop(n, None)
+                    else:
+                        ts.__dict__[n] = old
+            elif name == "source-tables":
+                # the tree sequence is a snapshot of the TableCollection it was built from
+                self.ctx.count("source-tables-mutation")
+                try:
+                    X.mutate_source_tables(self.source)
+                except Exception:  # noqa: BLE001
+                    pass
+            elif name == "hops":
+                # arrays and rows reached through several hops
+                tc = ts.tables
+                t = r.choice(list(tc.table_name_map.values()))
+                res = [ts.reference_sequence, t.asdict(), t[: max(1, len(t) // 2)], t.copy(), list(t)[:3], tc.indexes,
+                       tc.copy(), tc.reference_sequence, tc.metadata_schema, ts.table_metadata_schemas,
+                       ts.metadata_schema, ts.metadata]
+                if ts.num_individuals:
+                    res.append(ts.individual(r.randrange(ts.num_individuals)))
+                if ts.num_sites:
+                    res.append(ts.site(r.randrange(ts.num_sites)))
+            elif name == "low-level":
+                ll = ts.ll_tree_sequence
+                res = [ll.get_samples(), ll.get_breakpoints(), ts.get_ll_tree_sequence() is ll]
+            elif name == "ld":
+                ld = tskit.LdCalculator(ts)
+                res = [ld.r2_matrix(), ld.r2_array(0, max_sites=3), ld.r2(0, ts.num_sites - 1)]
+        except Exception as e:  # noqa: BLE001
+            self.ctx.count("call-raised")
+            self.ctx.feature("raised:" + label)
+            self.trace[-1] += "!" + type(e).__name__
+            res = None
+        try:
+            self.probe(res, label)
+        finally:
+            self.flush()
+            self.unchanged(label, deep=True, tables_prop=True)
+
+    TREE_ARRAYS = ("parent_array", "left_child_array", "right_child_array", "left_sib_array", "right_sib_array",
+                   "num_children_array", "edge_array")
+
     def run(self):
         r = self.rng
         names = [n for n in dir(tskit.TreeSequence) if not n.startswith("_") and n not in SKIP_NAMES]
-        prog = r.sample(names, 22) + r.sample(TS_ARRAY_PROPS, 3) + ["tables", "dump_tables", "samples"]
+        prog = r.sample(names, 20) + r.sample(TS_ARRAY_PROPS, 3) + ["tables", "dump_tables", "samples"]
+        prog += ["extra:" + n for n in r.sample(["pickle", "copy", "text", "setattr", "source-tables", "hops", "hops",
+                                                  "low-level", "ld"], 3)]
         r.shuffle(prog)
         for name in prog:
-            self.call(self.ts, "TreeSequence", name)
+            if name.startswith("extra:"):
+                self.extra(name[6:])
+            else:
+                self.call(self.ts, "TreeSequence", name)
         # a Tree and a Variant obtained from it, driven directly
-        tree = self.ts.at_index(r.randrange(self.ts.num_trees))
+        tree = self.ts.at_index(r.randrange(self.ts.num_trees), **r.choice([{}, {}, {"sample_lists": True}]))
         tnames = [n for n in dir(tskit.Tree) if not n.startswith("_") and n not in SKIP_NAMES]
-        for name in r.sample(tnames, 15):
+        for name in r.sample(tnames, 12) + list(r.sample(self.TREE_ARRAYS, 4)) + ["preorder", "samples"]:
             self.call(tree, "Tree", name, depth=1)
         if self.ts.num_sites:
             var = tskit.Variant(self.ts)
